@@ -1649,6 +1649,16 @@ class Interp:
                 else:
                     r = nm
         a, b = self.ev(l, st, fn, depth), self.ev(r, st, fn, depth)
+        if t in (ast.In, ast.NotIn) and isinstance(r, ast.Call) and isinstance(r.func, ast.Name) and r.func.id == "range" and 1 <= len(r.args) <= 3 and not r.keywords and isinstance(a, Iv) and a.const:
+            # membership of an exact integer in range(...) with exact bounds
+            ra = [self.ev(x, st, fn, depth) for x in r.args]
+            if all(isinstance(x, Iv) and x.const for x in ra):
+                try:
+                    member = int(a.lo) in range(*[int(x.lo) for x in ra]) and a.lo == int(a.lo)
+                except (ValueError, OverflowError):
+                    member = None
+                if member is not None:
+                    return [st] if (member == (t is ast.In)) == truth else []
         if t in (ast.In, ast.NotIn):
             if isinstance(b, Obj):
                 return self._obj_compare(l, op, r, a, b, st, fn, truth, depth)
